@@ -470,4 +470,49 @@ theorem canonDomain_of_absolute (a b : Str) (h : isAbsolute a = true) :
       simp [cstr, List.takeWhile_cons, NUL]
     simp [CanonDomain, rawOf, hcs, rootLen, issep, cat, closedRoot, joinRaw, mapChar]
 
+/-! ### de-duplication -/
+
+theorem dedupBy_sublist (key : Str → Str) : ∀ l : List (Str × Lang), (dedupBy key l).Sublist l
+  | [] => List.Sublist.refl _
+  | x :: r => by
+    simp only [dedupBy]
+    exact List.Sublist.cons₂ x (List.Sublist.trans List.filter_sublist (dedupBy_sublist key r))
+
+theorem dedupBy_nodup (key : Str → Str) : ∀ l : List (Str × Lang), ((dedupBy key l).map (fun f => key f.1)).Nodup
+  | [] => by simp [dedupBy]
+  | x :: r => by
+    simp only [dedupBy, List.map_cons, List.nodup_cons]
+    constructor
+    · intro hm
+      obtain ⟨y, hy, e⟩ := List.mem_map.1 hm
+      have := (List.mem_filter.1 hy).2
+      simp [e] at this
+    · have ih := dedupBy_nodup key r
+      exact ih.sublist (List.Sublist.map _ List.filter_sublist)
+
+theorem dedupBy_complete (key : Str → Str) : ∀ (l : List (Str × Lang)) (x : Str × Lang), x ∈ l →
+    ∃ y ∈ dedupBy key l, key y.1 = key x.1
+  | [], x, h => by simp at h
+  | z :: r, x, h => by
+    simp only [List.mem_cons] at h
+    simp only [dedupBy]
+    rcases h with rfl | h
+    · exact ⟨x, by simp, rfl⟩
+    · obtain ⟨y, hy, e⟩ := dedupBy_complete key r x h
+      by_cases hk : key y.1 = key z.1
+      · exact ⟨z, by simp, by rw [← hk, e]⟩
+      · exact ⟨y, by simp [hy, hk], e⟩
+
+theorem dedupBy_of_nodup (key : Str → Str) : ∀ l : List (Str × Lang), (l.map (fun f => key f.1)).Nodup → dedupBy key l = l
+  | [], _ => rfl
+  | x :: r, h => by
+    simp only [List.map_cons, List.nodup_cons] at h
+    simp only [dedupBy, dedupBy_of_nodup key r h.2]
+    congr 1
+    apply List.filter_eq_self.2
+    intro y hy
+    have : key y.1 ≠ key x.1 := by
+      intro e; exact h.1 (List.mem_map.2 ⟨y, hy, e⟩)
+    simpa using this
+
 end Cppcheck.FileLister
